@@ -71,7 +71,10 @@ PROPS = {
                     "sites (cs_nbhttp_close_routed + the oracle below); a second, end-to-end run "
                     "(hwscb -tier c05, owned by the stop family: real nbhttp engine on loopback, poller/blockparser upgrade paths in "
                     "lt|et|etos) checks the consequence 'HTTP handler and WebSocket callbacks of one connection never overlap' with "
-                    "the oracle c05-overlap; its model side is C14's WsCb.execOf table (those paths use the same per-conn ExecQ)",
+                    "the oracle c05-overlap; its model side is C14's WsCb.execOf table (those paths use the same per-conn ExecQ); a third run "
+                    "(hstop -tier c05, stop family, seed C05-e) holds a request handler of a conn on a real nbhttp engine while Stop/Shutdown "
+                    "closes that conn: the close handling must go through MustExecute and wait its turn (oracles c05-overlap, "
+                    "c05-close-order; model side: C18's stop model, no ExecQ theorem is instantiated there)",
             "technique": "Lean 4 proof (inductive invariant of a transition system) + schedule replay / differential correspondence"},
         "lean": ["NbioVerif.Properties.C05"], "drivers": ["jobqdrv", "wscbdrv", "stopdrv"], "harness": ["hjobq", "hwscb", "hstop"],
         "runs": [JOBQ_RUN, WSUP_RUN, HSIM_RUN],
@@ -94,8 +97,12 @@ PROPS = {
                     "hook, Stop) and checking that every stable state the implementation reaches is a stable successor state of the model; "
                     "bound / exactly-once / panic / barrier-capacity oracles run on the implementation alone",
             "note": "interleavings of the real code are not enumerated (Lean quantifies over the model's schedules, the harness replays "
-                    "chosen ones); NOT established: 'every task handed over before Stop runs exactly once' is violated for tasks still queued "
-                    "at Stop (finding C19-stop-drop, c19_stop_drop_counterexample) and proved only for runs without Stop; oracle only: "
+                    "chosen ones); 'every task handed over before Stop runs exactly once' is proved with Stop included "
+                    "(c19_completes, c19_handed_before_stop_runs; the former finding C19-stop-drop is repaired: the dispatcher drains the "
+                    "queue when it takes <-chClose) for every task whose Go call had RETURNED before Stop closed the pool; a Go call that "
+                    "races or follows Stop may drop its task or leave it in the queue behind the returned dispatcher (ghost inflight, "
+                    "c19_lost_only_racing_stop) - that is outside the property text; liveness is 'a finite continuation of the pool's own "
+                    "steps exists + every such step decreases a measure' (fair scheduler, terminating tasks); oracle only: "
                     "IOTaskPool buffer exclusivity/size (c19-iobuf), the custom-caller variant of New (run against the same model, its wrapper "
                     "is not modelled), that caller's recover covers worker and dispatcher (c19-panic); the parallelism "
                     "theorem gives n-1 simultaneous tasks for New(n, q) (n-2 workers + the dispatcher), not n; TaskPool.Call (caller(f) inline) is neither modelled nor exercised; the driver accepts any stable "
